@@ -102,6 +102,15 @@ After the fixes af1d2e4/6ee70d8/d64e021/0f568df/d768234 (second sweep, all VIOLA
   off -> oracle (checker rejects); M14 AddDefaultAttributes overwrites present attributes -> oracle (outputs differ);
   M15 OutputFix aliases the wrong value -> oracle (outputs differ).  Coordinator's seeded changes: m1 (CSE ignores None
   inputs in the key), m2 (Cloner returns the resolved attribute object), m3 (defaults cache without opset) all detected with input.
+Round 2 (after af1b46d: the model keeps an Identity between two graph outputs): new streams — feeds that OVERRIDE the
+  initializer-backed inputs (even input seeds, when the number of such inputs is constant along the sequence), generated-looking
+  names shared by function bodies and the caller (t, t_2, val_3 ...), targeted templates (several inlined calls into graphs
+  with such names; plain initializers next to an overridable one; a function reachable only through an If body of another
+  function).  Seeded r2m1 (inliner name counter), r2m2 (input-backed initializer as canonical copy), r2m3 (non-recursive
+  function reachability): all detected with a concrete replay.  New findings on the unchanged tree (known, with proposed fixes):
+  inline-omitted-call-output (C05-inline-omitted-call-output.diff), inline-name-collision-with-nested-scope
+  (C05-inline-reserve-nested-names.diff; classified only when the duplicated name sits in two different nested graphs, so a
+  same-level duplicate — r2m1 — is still a violation).
 Wall time: quick ~60-110 s under load (40 specs x (22 single passes + 5 sequences) + corpus), thorough ~9-12 min (400 specs).
 """
 
